@@ -992,7 +992,7 @@ func (p *Prog) isLinkRemover(g *ssa.Function) bool {
 func (p *Prog) reachesFollowSinkOnPath(g *ssa.Function, u *unpackCtx) bool {
 	takesInfo := false
 	for _, prm := range g.Params {
-		if named, ok := derefType(prm.Type()).(*types.Named); ok && named.Obj().Name() == "UnpackInfo" {
+		if named, ok := types.Unalias(derefType(prm.Type())).(*types.Named); ok && named.Obj().Name() == "UnpackInfo" {
 			takesInfo = true
 		}
 	}
@@ -1009,9 +1009,9 @@ func (p *Prog) reachesFollowSinkOnPath(g *ssa.Function, u *unpackCtx) bool {
 
 func derefType(t types.Type) types.Type {
 	if pt, ok := t.Underlying().(*types.Pointer); ok {
-		return pt.Elem()
+		return types.Unalias(pt.Elem())
 	}
-	return t
+	return types.Unalias(t)
 }
 
 // argFromSliceElem: some argument of the call is an element of a slice
@@ -1038,6 +1038,6 @@ func isUnpackInfoSlice(t types.Type) bool {
 	if !ok {
 		return false
 	}
-	n, ok := sl.Elem().(*types.Named)
+	n, ok := types.Unalias(sl.Elem()).(*types.Named)
 	return ok && n.Obj().Name() == "UnpackInfo"
 }
